@@ -14,7 +14,8 @@ EXPLANATION = (
     "multi-event client channel.  Decides these conditions, not interleavings as such."
     " (g) Commands still queued when Exit is executed are consumed (answered or dropped) so that their reply channels close."
     " (h) The loop around receiver.try_recv() in run is left only on try_recv's empty-queue edge or on the way out of run: no batch cap can strand commands whose wake-up datagrams are already consumed. (i) ServiceInfo::set_status never writes a status other than Probing/Announced unless the interface was removed from my_intfs first (goodbyes at shutdown go where the status is Announced)."
-    " The goodbye at shutdown is built over both sockets (C09b, shared).")
+    " The goodbye at shutdown is built over both sockets (C09b, shared)."
+    " (j) The SearchStopped events of cleanup are sent with the lossless send. (k) cleanup tries IPv6 after IPv4 on every interface.")
 UNDECIDED = ["interleavings as such (exhaustive small-N exploration is a different technique family)",
              "that a blocked client eventually drains (environment)"]
 
